@@ -164,20 +164,40 @@ def run(rep):
                             time_step=traj.time_step, metadata=dict(traj.metadata))
             t3 = Trajectory(species=traj.species, coords=np.array(traj.positions), lattice=traj.get_lattice(),
                             time_step=traj.time_step * s, metadata=dict(traj.metadata))
-            m1, m2, m3 = TrajectoryMetrics(traj), TrajectoryMetrics(t2), TrajectoryMetrics(t3)
+            if b % 2:
+                # the same through the convenience entry point Trajectory.metrics(), on ONE object whose time step (a plain attribute)
+                # is changed in place between the two questions: the answer is that of the trajectory as it is now
+                t3 = Trajectory(species=traj.species, coords=np.array(traj.positions), lattice=traj.get_lattice(),
+                                time_step=traj.time_step, metadata=dict(traj.metadata))
+                m1 = t3.metrics()
+                t3_pending = True
+            else:
+                t3_pending = False
+            m1, m2, m3 = (m1 if b % 2 else TrajectoryMetrics(traj)), t2.metrics() if b % 2 else TrajectoryMetrics(t2), None if b % 2 else TrajectoryMetrics(t3)
             amp_scale = float(np.mean(np.abs(np.asarray(m1.amplitudes())))) if len(np.asarray(m1.amplitudes())) else 0.0
 
             def ratio(f, mm, floor=0.0):
-                a0, a1 = float(f(m1)), float(f(mm))
+                a0, a1 = base_of(f), float(f(mm))
                 # a quantity that is zero up to rounding noise (e.g. the spread of identical amplitudes) has no meaningful ratio
                 if not math.isfinite(a0) or abs(a0) <= max(floor, 1e-300):
                     return None
                 return a1 / a0
+            cache0 = {}
+
+            def base_of(f):
+                if id(f) not in cache0:
+                    cache0[id(f)] = float(f(m1))
+                return cache0[id(f)]
             table = [('tracer-diffusivity', lambda x: x.tracer_diffusivity(dimensions=3), k ** 2, 1 / s),
                      ('com-diffusivity', lambda x: x.tracer_diffusivity_center_of_mass(dimensions=3), k ** 2, 1 / s),
                      ('vibration-amplitude', lambda x: x.vibration_amplitude(), k, 1.0),
                      ('particle-density', lambda x: x.particle_density(), k ** -3, 1.0),
                      ('attempt-frequency', lambda x: x.attempt_frequency()[0], 1.0, 1 / s)]
+            if t3_pending:
+                for name, f, ek, es in table:
+                    base_of(f)                      # asked on the object before its time step changes
+                t3.time_step = t3.time_step * s
+                m3 = t3.metrics()
             for name, f, ek, es in table:
                 floor = 1e-9 * amp_scale if name == 'vibration-amplitude' else 0.0
                 rk, rs = ratio(f, m2, floor), ratio(f, m3, floor)
